@@ -62,6 +62,9 @@ package influxql
 //@ func (ErrorValue).TokenType
 //@   props C07
 //@   ensures result == BOUNDPARAM
+//@ func (ErrorValue).Value
+//@   props C07
+//@   ensures result == string(e)
 //@ func (Identifier).Value
 //@   props C07
 //@   ensures result == string(v)
@@ -97,31 +100,57 @@ package influxql
 //@   ensures pos.Line == dynres(fn, 1).Line && pos.Char == dynres(fn, 1).Char
 //@   ensures dynres(fn, 0) != BOUNDPARAM ==> tok == dynres(fn, 0) && lit == dynres(fn, 2)
 //@   ensures [C07] @emptyname (dynres(fn, 0) == BOUNDPARAM && len(libcall("strings.TrimPrefix", dynres(fn, 2), "$")) == 0) ==> (tok == BOUNDPARAM && lit == dynres(fn, 2))
+// the substitution table: the value bound to the name after the sigil decides token kind and literal, nothing else does
+//@   ensures [C07] @unbound (dynres(fn, 0) == BOUNDPARAM && len(libcall("strings.TrimPrefix", dynres(fn, 2), "$")) != 0 && !haskey(p.params, libcall("strings.TrimPrefix", dynres(fn, 2), "$"))) ==> (tok == BOUNDPARAM && lit == dynres(fn, 2))
+//@   ensures [C07] @sub_Identifier (dynres(fn, 0) == BOUNDPARAM && len(libcall("strings.TrimPrefix", dynres(fn, 2), "$")) != 0 && haskey(p.params, libcall("strings.TrimPrefix", dynres(fn, 2), "$")) && istype(p.params[libcall("strings.TrimPrefix", dynres(fn, 2), "$")], Identifier)) ==> (tok == IDENT && lit == string(p.params[libcall("strings.TrimPrefix", dynres(fn, 2), "$")].(Identifier)))
+//@   ensures [C07] @sub_StringValue (dynres(fn, 0) == BOUNDPARAM && len(libcall("strings.TrimPrefix", dynres(fn, 2), "$")) != 0 && haskey(p.params, libcall("strings.TrimPrefix", dynres(fn, 2), "$")) && istype(p.params[libcall("strings.TrimPrefix", dynres(fn, 2), "$")], StringValue)) ==> (tok == STRING && lit == string(p.params[libcall("strings.TrimPrefix", dynres(fn, 2), "$")].(StringValue)))
+//@   ensures [C07] @sub_RegexValue (dynres(fn, 0) == BOUNDPARAM && len(libcall("strings.TrimPrefix", dynres(fn, 2), "$")) != 0 && haskey(p.params, libcall("strings.TrimPrefix", dynres(fn, 2), "$")) && istype(p.params[libcall("strings.TrimPrefix", dynres(fn, 2), "$")], RegexValue)) ==> (tok == REGEX && lit == string(p.params[libcall("strings.TrimPrefix", dynres(fn, 2), "$")].(RegexValue)))
+//@   ensures [C07] @sub_DurationValue (dynres(fn, 0) == BOUNDPARAM && len(libcall("strings.TrimPrefix", dynres(fn, 2), "$")) != 0 && haskey(p.params, libcall("strings.TrimPrefix", dynres(fn, 2), "$")) && istype(p.params[libcall("strings.TrimPrefix", dynres(fn, 2), "$")], DurationValue)) ==> (tok == DURATIONVAL && lit == string(p.params[libcall("strings.TrimPrefix", dynres(fn, 2), "$")].(DurationValue)))
+//@   ensures [C07] @sub_ErrorValue (dynres(fn, 0) == BOUNDPARAM && len(libcall("strings.TrimPrefix", dynres(fn, 2), "$")) != 0 && haskey(p.params, libcall("strings.TrimPrefix", dynres(fn, 2), "$")) && istype(p.params[libcall("strings.TrimPrefix", dynres(fn, 2), "$")], ErrorValue)) ==> (tok == BOUNDPARAM && lit == string(p.params[libcall("strings.TrimPrefix", dynres(fn, 2), "$")].(ErrorValue)))
+//@   ensures [C07] @sub_IntegerValue (dynres(fn, 0) == BOUNDPARAM && len(libcall("strings.TrimPrefix", dynres(fn, 2), "$")) != 0 && haskey(p.params, libcall("strings.TrimPrefix", dynres(fn, 2), "$")) && istype(p.params[libcall("strings.TrimPrefix", dynres(fn, 2), "$")], IntegerValue)) ==> tok == INTEGER
+//@   ensures [C07] @sub_NumberValue (dynres(fn, 0) == BOUNDPARAM && len(libcall("strings.TrimPrefix", dynres(fn, 2), "$")) != 0 && haskey(p.params, libcall("strings.TrimPrefix", dynres(fn, 2), "$")) && istype(p.params[libcall("strings.TrimPrefix", dynres(fn, 2), "$")], NumberValue)) ==> tok == NUMBER
+//@   ensures [C07] @sub_BooleanValue (dynres(fn, 0) == BOUNDPARAM && len(libcall("strings.TrimPrefix", dynres(fn, 2), "$")) != 0 && haskey(p.params, libcall("strings.TrimPrefix", dynres(fn, 2), "$")) && istype(p.params[libcall("strings.TrimPrefix", dynres(fn, 2), "$")], BooleanValue)) ==> (lit == "" && (p.params[libcall("strings.TrimPrefix", dynres(fn, 2), "$")].(BooleanValue) ==> tok == TRUE) && (!p.params[libcall("strings.TrimPrefix", dynres(fn, 2), "$")].(BooleanValue) ==> tok == FALSE))
 //@   ensures p.params == old(p.params) && p.s == old(p.s)
 
 // bound values are never nil interfaces: SetParams stores BindValue results only
 //@ typeinv Parser : mapvalsnonnil(self.params)
+// ... and are values of the eight kinds of this package (params is unexported; SetParams is its only writer)
+//@ typeinv Parser : mapvalstyped(self.params, Identifier, StringValue, RegexValue, NumberValue, IntegerValue, BooleanValue, DurationValue, ErrorValue)
 
 //@ func BindValue
 //@   props C07 C04
 //@   safety C04
 //@   ensures result != nil
+//@   ensures typeis(result, Identifier, StringValue, RegexValue, NumberValue, IntegerValue, BooleanValue, DurationValue, ErrorValue)
 //@   ensures [C07] @bindbool istype(v, bool) ==> (istype(result, BooleanValue) && result.(BooleanValue) == v.(bool))
 //@   ensures [C07] @bindint istype(v, int64) ==> (istype(result, IntegerValue) && result.(IntegerValue) == v.(int64))
 //@   ensures [C07] @bindfloat istype(v, float64) ==> (istype(result, NumberValue) && result.(NumberValue) == v.(float64))
 //@   ensures [C07] @bindstring istype(v, string) ==> (istype(result, StringValue) && result.(StringValue) == v.(string))
+// whatever further integer kinds become bindable, an integer node carries the bound number itself (mathematical comparison: no wrap-around)
+//@   ensures [C07] @carries_int (istype(v, int) && istype(result, IntegerValue)) ==> result.(IntegerValue) == v.(int)
+//@   ensures [C07] @carries_int8 (istype(v, int8) && istype(result, IntegerValue)) ==> result.(IntegerValue) == v.(int8)
+//@   ensures [C07] @carries_int16 (istype(v, int16) && istype(result, IntegerValue)) ==> result.(IntegerValue) == v.(int16)
+//@   ensures [C07] @carries_int32 (istype(v, int32) && istype(result, IntegerValue)) ==> result.(IntegerValue) == v.(int32)
+//@   ensures [C07] @carries_uint (istype(v, uint) && istype(result, IntegerValue)) ==> result.(IntegerValue) == v.(uint)
+//@   ensures [C07] @carries_uint8 (istype(v, uint8) && istype(result, IntegerValue)) ==> result.(IntegerValue) == v.(uint8)
+//@   ensures [C07] @carries_uint16 (istype(v, uint16) && istype(result, IntegerValue)) ==> result.(IntegerValue) == v.(uint16)
+//@   ensures [C07] @carries_uint32 (istype(v, uint32) && istype(result, IntegerValue)) ==> result.(IntegerValue) == v.(uint32)
+//@   ensures [C07] @carries_uint64 (istype(v, uint64) && istype(result, IntegerValue)) ==> result.(IntegerValue) == v.(uint64)
+//@   ensures [C07] @carries_uintptr (istype(v, uintptr) && istype(result, IntegerValue)) ==> result.(IntegerValue) == v.(uintptr)
 
 //@ func bindObjectValue
 //@   props C07 C04
 //@   safety C04
 //@   ensures result != nil
+//@   ensures typeis(result, Identifier, StringValue, RegexValue, NumberValue, IntegerValue, BooleanValue, DurationValue, ErrorValue)
+//@   ensures [C07] @oneentry len(m) != 1 ==> istype(result, ErrorValue)
 
 //@ func (*Parser).SetParams
 //@   props C07 C04
 //@   safety C04
 //@   requires p != nil
-//@   ensures mapvalsnonnil(p.params)
-//@   loop 1 invariant mapvalsnonnil(p.params) && p.params != nil
+//@   ensures mapvalsnonnil(p.params) && mapvalstyped(p.params, Identifier, StringValue, RegexValue, NumberValue, IntegerValue, BooleanValue, DurationValue, ErrorValue)
+//@   loop 1 invariant mapvalsnonnil(p.params) && p.params != nil && mapvalstyped(p.params, Identifier, StringValue, RegexValue, NumberValue, IntegerValue, BooleanValue, DurationValue, ErrorValue)
 
 // thin wrappers are inlined at call sites
 //@ func (*bufScanner).Scan
@@ -226,3 +255,13 @@ package influxql
 //@   ensures result1 == nil ==> fresh(result0)
 //@   ensures result1 == nil ==> p.s.n <= 1
 //@   loop * invariant t != nil && p.s.n <= 1 && p.s == entry(p.s) && p.s.s == entry(p.s.s) && p.s.s.r == entry(p.s.s.r) && p.s != nil && 0 <= p.s.i && p.s.i < 3 && 0 <= p.s.n && p.s.s != nil && p.s.s.r != nil && 0 <= p.s.s.r.i && p.s.s.r.i < 3 && 0 <= p.s.s.r.n && p.s.s.r.n <= 3 && p.s.n <= 3
+
+// a JSON number is bound as the integer (no full stop in its text) or float it denotes, exactly as
+// encoding/json reads it: no detour through another numeric type
+//@ func jsonNumberToValue
+//@   props C07 C04
+//@   safety C04
+//@   modifies fresh
+//@   ensures [C07] @kind result1 == nil ==> (istype(result0, int64) || istype(result0, float64))
+//@   ensures [C07] @integral (result1 == nil && !libcall("strings.Contains", string(v), ".")) ==> (istype(result0, int64) && result0.(int64) == nth(libcall("(encoding/json.Number).Int64", v), 0))
+//@   ensures [C07] @fraction (result1 == nil && libcall("strings.Contains", string(v), ".")) ==> (istype(result0, float64) && result0.(float64) == nth(libcall("(encoding/json.Number).Float64", v), 0))
